@@ -88,6 +88,8 @@ def lin_failures(sp, dt, aseed):
         return ["unavailable"]
     scale = max(np.linalg.norm(M), 1e-30)
     if not np.linalg.norm(Mi - 1j * M) <= tol(dt) * scale:
+        scale = max(scale, LO.tree_opscale(sp, dt))          # operands' scale, not the cancelling result's
+    if not np.linalg.norm(Mi - 1j * M) <= tol(dt) * scale:
         # distinguish 'imaginary part dropped' from other non-linearity
         out.append("c-linearity")
     # additivity / homogeneity on a random complex combination
